@@ -1216,6 +1216,12 @@ def rule_nested_scope_effects(check, rule):
     walking = [c for c in ns_calls if _walks_parent(ns_cls.methods[c.func.attr].node)]
     setitem = ns_cls.methods.get('__setitem__')
     setitem_walks = setitem is not None and _walks_parent(setitem.node)
+    # (the binding that is marked must be the one the scope-walking lookup returned: another method of the namespace that walks the chain
+    # -- the immutability test does since D41c -- is not that lookup)
+    walked_names = set(t_.id for a_ in ast.walk(vn.node) if isinstance(a_, ast.Assign) and a_.value in walking
+                       for t_ in a_.targets if isinstance(t_, ast.Name))
+    taints = [n for n in taints if isinstance(n.value, ast.Name) and n.value.id in walked_names] or \
+        [n for n in taints if any(c is n.value for c in walking)]
     if taints and walking:
         check.holds(rule, site_of(vn, taints[0]), 'a read of an enclosing scope\'s variable inside a nested function marks the enclosing binding '
                     '(looked up through Namespace.%s along the scope chain)' % walking[0].func.attr, key=key)
